@@ -45,6 +45,9 @@ pub enum Payload {
     BadBody(u8, u8),
     /// n Sync messages back to back
     SyncStorm(u8),
+    /// a well-formed request (not waiting for its reply): 0 SELECT, 1 BEGIN, 2 COMMIT, 3 Parse/Bind/Execute/Sync of a named
+    /// statement, 4 COPY t FROM STDIN, 5 lone Parse, 6 Bind/Execute/Sync of that name, 7 SET + SELECT
+    Valid(u8, u16),
     /// syntactically extreme SQL in a Query (or Parse + Sync) message
     Sql { shape: u8, n: u32, ext: bool },
 }
@@ -55,6 +58,9 @@ pub struct Case {
     #[serde(default)]
     pub parser: u8,
     pub cache: bool,
+    /// 1 or 2 server connections in the pool
+    #[serde(default = "one")]
+    pub pool_size: u8,
     /// address-space limit of the pooler process in MiB (0 = none)
     #[serde(default)]
     pub mem_mb: u32,
@@ -65,6 +71,10 @@ pub struct Case {
     pub conns: u8,
     /// close after the payloads (true) or linger 60 ms first
     pub linger: bool,
+}
+
+fn one() -> u8 {
+    1
 }
 
 pub struct WirePart;
@@ -105,6 +115,7 @@ fn payload_strategy() -> BoxedStrategy<Payload> {
         3 => prop_oneof![Just(b'B'), Just(b'E'), Just(b'D'), Just(b'd'), Just(b'c'), Just(b'f'), Just(b'S'), Just(b'C'), Just(b'H'), Just(b'p')].prop_map(Payload::Misplaced),
         4 => (prop_oneof![Just(b'P'), Just(b'B'), Just(b'D'), Just(b'C'), Just(b'Q'), Just(b'E')], 0u8..8).prop_map(|(c, k)| Payload::BadBody(c, k)),
         1 => (1u8..40).prop_map(Payload::SyncStorm),
+        4 => (0u8..8, 900u16..999).prop_map(|(k, n)| Payload::Valid(k, n)),
         3 => (0u8..14, prop_oneof![Just(10u32), Just(60), Just(300), Just(3000), Just(30_000), Just(200_000)], any::<bool>()).prop_map(|(shape, n, ext)| Payload::Sql { shape, n, ext }),
     ]
     .boxed()
@@ -122,18 +133,18 @@ impl Part for WirePart {
         true
     }
     fn rule(&self) -> String {
-        "an attacker (1..5 parallel connections) brings itself into a protocol state {fresh connection, after the password challenge, authenticated idle, inside a transaction, inside COPY FROM STDIN, with an unsynced batch, admin session} and sends 1..4 payloads from a structure-aware generator (typed frames whose length field is negative / 0..4 / inconsistent / up to 2^28, or 2^29 when the pooler runs under a 2 GiB address-space limit (a quarter of the cases), start-up packets with bad lengths, codes and unterminated parameters, raw bytes, well-formed messages out of place, known message types with malformed bodies, Sync storms), then lingers or closes; a canary client shares the pool_size=1 pool and runs tagged transactions before, while an unauthenticated attacker is connected, and after; statement cache on/off, worker_threads 1/2. Oracle: pgcat stays alive; every canary transaction is answered with exactly its own rows; the backend session is clean whenever it passes from the attacker to the canary (C02's predicate); a new client can log in afterwards and the pool still serves a transaction. Non-trivial = attacker bytes sent while it held the shared connection, or more attacker connections than worker threads".into()
+        "an attacker (1..5 parallel connections) brings itself into a protocol state {fresh connection, after the password challenge, authenticated idle, inside a transaction, inside COPY FROM STDIN, with an unsynced batch, admin session} and sends 1..5 payloads from a structure-aware generator (typed frames whose length field is negative / 0..4 / inconsistent / up to 2^28, or 2^29 when the pooler runs under a 2 GiB address-space limit (a quarter of the cases), start-up packets with bad lengths, codes and unterminated parameters, raw bytes, well-formed messages out of place, known message types with malformed bodies, Sync storms, extreme SQL texts, and well-formed requests in between), then lingers or closes; a canary client shares the pool (pool_size 1 or 2) and runs tagged transactions before, during (whenever the attacker cannot legitimately hold every server connection: unauthenticated or admin attacker, or pool_size 2 with one attacker) and after; statement cache on/off, worker_threads 1/2. Oracle: pgcat stays alive; every canary transaction is answered with exactly its own rows; the backend session is clean whenever it passes from the attacker to the canary (C02's predicate); a new client can log in afterwards and pool_size clients can be inside a transaction simultaneously. Non-trivial = attacker bytes sent while it held the shared connection, or more attacker connections than worker threads".into()
     }
     fn cases(&self, tier: Tier) -> u64 {
-        tier.pick(500, 15_000)
+        tier.pick(2000, 40_000)
     }
     fn strategy(&self, _tier: Tier) -> BoxedStrategy<Case> {
         let phase = prop_oneof![3 => Just(Phase::Startup), 1 => Just(Phase::Password), 3 => Just(Phase::Idle), 3 => Just(Phase::InTxn), 2 => Just(Phase::InCopy), 2 => Just(Phase::MidBatch), 1 => Just(Phase::Admin)];
-        (0u8..3, any::<bool>(), prop_oneof![3 => Just(0u32), 1 => Just(2048u32)], prop_oneof![Just(1u8), Just(2u8)], phase, prop::collection::vec(payload_strategy(), 1..5), prop_oneof![4 => Just(1u8), 1 => 2u8..6], any::<bool>())
-            .prop_map(|(parser, cache, mem_mb, workers, phase, payloads, conns, linger)| {
+        (0u8..3, (any::<bool>(), 1u8..3), prop_oneof![3 => Just(0u32), 1 => Just(2048u32)], prop_oneof![Just(1u8), Just(2u8)], phase, prop::collection::vec(payload_strategy(), 1..6), prop_oneof![4 => Just(1u8), 1 => 2u8..6], any::<bool>())
+            .prop_map(|(parser, (cache, pool_size), mem_mb, workers, phase, payloads, conns, linger)| {
                 // parallel attackers that hold the single server or a half-sent batch would only queue behind each other
                 let conns = if matches!(phase, Phase::Startup | Phase::Password | Phase::Idle | Phase::Admin) { conns } else { 1 };
-                Case { parser, cache, mem_mb, workers, phase, payloads, conns, linger }
+                Case { parser, cache, pool_size, mem_mb, workers, phase, payloads, conns, linger }
             })
             .boxed()
     }
@@ -220,6 +231,30 @@ pub fn render(p: &Payload, cap: i32) -> Vec<u8> {
             };
             proto::frame(*code, &body)
         }
+        Payload::Valid(k, n) => {
+            let tag = crate::sqllex::Tag { client: 10, stmt: *n as u32 }.render();
+            match k % 8 {
+                0 => proto::query(&format!("{} SELECT v FROM t", tag)),
+                1 => proto::query(&format!("{} BEGIN", tag)),
+                2 => proto::query(&format!("{} COMMIT", tag)),
+                3 => {
+                    let mut v = proto::parse("att2", &format!("{} SELECT v FROM t WHERE id = $1", tag), &[]);
+                    v.extend_from_slice(&proto::bind("", "att2", &[], &[Some(b"1".to_vec())], &[]));
+                    v.extend_from_slice(&proto::execute("", 0));
+                    v.extend_from_slice(&proto::sync());
+                    v
+                }
+                4 => proto::query(&format!("{} COPY t FROM STDIN", tag)),
+                5 => proto::parse("att2", &format!("{} SELECT v FROM t WHERE id = $1", tag), &[]),
+                6 => {
+                    let mut v = proto::bind("", "att2", &[], &[Some(b"1".to_vec())], &[]);
+                    v.extend_from_slice(&proto::execute("", 0));
+                    v.extend_from_slice(&proto::sync());
+                    v
+                }
+                _ => proto::query(&format!("{} SET work_mem TO '9'; SELECT v FROM t", tag)),
+            }
+        }
         Payload::Sql { shape, n, ext } => {
             let sql = sql_bomb(*shape, *n as usize);
             if *ext {
@@ -294,7 +329,7 @@ fn config(mocks: &[crate::mock::MockServer], c: &Case) -> PgcatConfig {
     cfg.set_general("worker_threads", &c.workers.to_string());
     cfg.set_general("connect_timeout", "3000");
     let servers = vec![ServerDef { host: mocks[0].ip.clone(), port: mocks[0].port, role: "primary".into() }];
-    let mut pool = pgc::simple_pool("db", "u", "pw", 1, servers);
+    let mut pool = pgc::simple_pool("db", "u", "pw", c.pool_size.max(1) as u32, servers);
     if c.cache {
         pool.set("prepared_statements_cache_size", "8");
     }
@@ -452,6 +487,7 @@ async fn run_case(c: &Case, ctx: &mut WorkerCtx) -> Outcome {
             Payload::Misplaced(_) => "payload:misplaced",
             Payload::BadBody(..) => "payload:bad_body",
             Payload::SyncStorm(_) => "payload:sync_storm",
+            Payload::Valid(..) => "payload:valid_request",
             Payload::Sql { n, .. } if *n >= 3000 => "payload:sql_large",
             Payload::Sql { .. } => "payload:sql_small",
         });
@@ -462,7 +498,11 @@ async fn run_case(c: &Case, ctx: &mut WorkerCtx) -> Outcome {
     o.sub_evaluations = c.payloads.len() as u64 * attackers.len() as u64;
     tokio::time::sleep(Duration::from_millis(10)).await;
     // ---- while an unauthenticated attacker is still connected, the canary must be served
-    if matches!(c.phase, Phase::Startup | Phase::Password) {
+    // (an authenticated attacker may hold one server connection like any client inside a transaction; with a second
+    // connection in the pool the canary must be served all the same)
+    let canary_during = matches!(c.phase, Phase::Startup | Phase::Password | Phase::Admin) || (c.pool_size >= 2 && attackers.len() == 1);
+    if canary_during {
+        o.label("canary-served-during-attack");
         if let Err((s, d)) = canary_txn(&mut canary, t0, "while the attacker is connected").await {
             bail!(&s, d);
         }
@@ -489,13 +529,68 @@ async fn run_case(c: &Case, ctx: &mut WorkerCtx) -> Outcome {
         }
         Err(e) => bail!("new-client-cannot-log-in", e),
     }
+    // capacity: pool_size clients can be inside a transaction at the same time
+    {
+        let mut holders: Vec<Cli> = vec![];
+        for k in 0..c.pool_size.max(1) {
+            let mut h = match env.client(20 + k as u32, "u", "db", "pw", &[]).await {
+                Ok(h) => h,
+                Err(e) => bail!("new-client-cannot-log-in", e),
+            };
+            let x = prog::run_req(&mut h, &Req::Simple(vec![St::new(Sk::Begin)]), t0).await;
+            if !matches!(x.end, ReadEnd::Ready(b'T')) {
+                bail!("server-connection-out-of-service", format!("after the attack only {} of {} clients could open a transaction at the same time: BEGIN of client {} ended {:?} {:?}", k, c.pool_size, 20 + k as u32, x.end, crate::cli::errors(&x.reply)));
+            }
+            holders.push(h);
+        }
+        for h in holders.iter_mut() {
+            let x = prog::run_req(h, &Req::Simple(vec![St::new(Sk::Commit)]), t0).await;
+            if !matches!(x.end, ReadEnd::Ready(b'I')) {
+                bail!("canary-not-answered", format!("COMMIT of a capacity probe ended {:?}", x.end));
+            }
+        }
+    }
     if !env.pg.alive() {
         bail!("pooler-terminated", "pgcat exited");
     }
     let log = env.log();
     env.finish().await;
-    if let Some((why, detail)) = super::c02::first_dirty_handover(&log, c.cache) {
+    // `SET` inside a transaction block that is then committed is outside what pgcat promises to undo (C02 excludes it)
+    let set_in_txn_possible = matches!(c.phase, Phase::InTxn) || c.payloads.iter().any(|p| matches!(p, Payload::Valid(k, _) if k % 8 == 1));
+    for (why, detail) in dirty_handovers(&log, c.cache) {
+        if why == "guc-not-reset" && set_in_txn_possible {
+            o.label("excluded:set-inside-committed-transaction");
+            continue;
+        }
         o.fail(&format!("dirty-handover:{}:phase={:?}", why, c.phase), format!("{}; case {:?}", detail, c));
+        break;
     }
     o
+}
+
+/// Hand-overs of a backend connection between the attacker (its tagged statements and every untagged client message - the
+/// canaries send none) and a well-behaved client, with the backend session state at that moment.
+fn dirty_handovers(log: &[crate::mock::Event], cache_on: bool) -> Vec<(String, String)> {
+    use crate::mock::EvKind;
+    let mut out = vec![];
+    let mut last: std::collections::HashMap<u64, u32> = Default::default();
+    for e in log {
+        if let EvKind::Rx { tags, snap, code, own, .. } = &e.kind {
+            if *own {
+                continue;
+            }
+            let senders: Vec<u32> = if tags.is_empty() { vec![10] } else { tags.iter().map(|t| if (10..20).contains(&t.client) { 10 } else { t.client }).collect() };
+            for s in senders {
+                if let Some(prev) = last.get(&e.conn) {
+                    if *prev != s {
+                        if let Some(why) = super::c02::unclean(snap, cache_on) {
+                            out.push((why.clone(), format!("backend conn {} passed from client c{} to c{} while {} (message '{}', seq {}); snap={:?}", e.conn, prev, s, why, *code as char, e.seq, snap)));
+                        }
+                    }
+                }
+                last.insert(e.conn, s);
+            }
+        }
+    }
+    out
 }
